@@ -45,7 +45,7 @@ def variants(t):
         yield t[2]
         for v in variants(t[2]):
             yield (k, t[1], v)
-    elif k in ('group', 'ab', 'align'):
+    elif k in ('group', 'ab', 'align', 'lazy'):
         yield t[1]
         for v in variants(t[1]):
             yield (k, v)
